@@ -943,9 +943,11 @@ def make_sim_backend(spec, max_t):
         from syne_tune.blackbox_repository.blackbox_tabular import BlackboxTabular
         from syne_tune.backend.simulator_backend.simulator_backend import SimulatorConfig
     rng = random.Random(spec["seed"] * 13 + 5)
-    ncfg, nseed, nfid = 6, 2, max_t
-    cs = {"a": randint(0, 2), "b": randint(0, 1)}
-    hp = pd.DataFrame({"a": [c // 2 for c in range(ncfg)], "b": [c % 2 for c in range(ncfg)]})
+    d0 = spec.get("sim", {})
+    na, nb = d0.get("na", 3), d0.get("nb", 2)
+    ncfg, nseed, nfid = na * nb, 2, max_t
+    cs = {"a": randint(0, na - 1), "b": randint(0, nb - 1)}
+    hp = pd.DataFrame({"a": [c // nb for c in range(ncfg)], "b": [c % nb for c in range(ncfg)]})
     obj = np.zeros((ncfg, nseed, nfid, 3))
     for c in range(ncfg):
         for s in range(nseed):
@@ -966,6 +968,34 @@ def make_sim_backend(spec, max_t):
                              seed=d.get("bb_seed", 0), support_checkpointing=d.get("support_checkpointing", True),
                              simulator_config=cfg, tuner_sleep_time=d.get("sleep", 2) / 16.0)
     be._time_keeper.real_time_since_last_recent_exit = lambda: 0.0  # real time plays no role: fully deterministic
+    # failing training runs: a run fails before its first report (no result at all) or after a few reports
+    p0, pk = d.get("p_fail0", 0.0), d.get("p_failk", 0.0)
+    if p0 or pk:
+        o_run = be._run_job_and_collect_results
+        runs = {}
+
+        def run_job(trial_id, config=None):
+            status, results = o_run(trial_id, config)
+            k = runs[trial_id] = runs.get(trial_id, 0) + 1
+            rr = random.Random(spec["seed"] * 7919 + int(trial_id) * 31 + k)
+            u = rr.random()
+            if u < p0:
+                return Status.failed, []
+            if u < p0 + pk and results:
+                return Status.failed, results[:rr.randrange(1, len(results) + 1)]
+            return status, results
+
+        be._run_job_and_collect_results = run_job
+    # ground truth for the monitors: the ends of runs which the simulator itself has processed
+    be.sim_ends = []
+    o_pce = be._process_complete_event
+
+    def pce(trial_id, time_event, status):
+        dlg = getattr(be, "dlg_ref", None)
+        be.sim_ends.append((len(dlg.entries) - 1 if dlg is not None else -1, int(trial_id), status))
+        return o_pce(trial_id=trial_id, time_event=time_event, status=status)
+
+    be._process_complete_event = pce
     # in-memory checkpoints (the simulator never writes any)
     be.ckpt, be.copy_missing, be.deleted = set(), [], []
     be.copy_checkpoint = lambda src_trial_id, tgt_trial_id: None
@@ -1054,6 +1084,7 @@ def run_loop(spec):
         wrap_backend(be, dlg)
         if sim:
             dlg.probe = lambda: len(be._busy_trial_ids)
+            be.dlg_ref = dlg
         else:
             be.dlg = dlg
             dlg.probe = be.occupancy
@@ -1377,7 +1408,23 @@ def gen_spec(rng, tier):
     if sim:
         spec["sim"] = {"d_result": rng.randint(0, 2), "d_complete": rng.randint(0, 3), "d_cstop": rng.randint(0, 2),
                        "d_start": rng.randint(0, 2), "d_stop": rng.randint(0, 2), "sleep": rng.randint(1, 8),
-                       "bb_seed": rng.randint(0, 1), "support_checkpointing": rng.random() < 0.8}
+                       "bb_seed": rng.randint(0, 1), "support_checkpointing": rng.random() < 0.8,
+                       "p_fail0": rng.choice([0.0, 0.0, 0.15]), "p_failk": rng.choice([0.0, 0.0, 0.15])}
+        if rng.random() < 0.3:
+            # long simulated runs: several workers, a table large enough for dozens of trials, many events of different
+            # trials interleaved in the simulator's queue when one of them is stopped or paused
+            spec["sim"].update({"na": 8, "nb": 5})
+            if rng.random() < 0.7:  # schedulers that stop trials early, no simulator delays
+                for _ in range(50):
+                    sp = gen_scheduler(rng, sim)
+                    if sp["kind"] in ("median", "moasha") or (sp["kind"] == "hb" and "stopping" in sp.get("type", "")):
+                        break
+                spec["scheduler"] = sp
+                spec["sim"].update({"d_result": 0, "d_complete": 0, "d_cstop": 0, "d_start": 0, "d_stop": 0})
+            spec["n_workers"] = rng.randint(3, 5)
+            spec["max_t"] = 9
+            spec["criterion"] = {"max_num_trials_started": rng.randint(20, 36)}
+            spec["inject"] = None
     else:
         real = sp["kind"] != "script"
         spec["backend_params"] = {
@@ -1545,7 +1592,12 @@ def monitor_c01(t):
     for i, c, a in calls:
         occ = t["dlg"].entries[i].get("_occ")
         if occ is not None and occ > n:
-            if t["header"]["sim_callback"]:
+            d_start = (t["spec"].get("sim") or {}).get("d_start", 0)
+            if t["header"]["sim_callback"] and not (not t["header"]["swd"] and d_start > 0):
+                # (the recorded finding needs start_jobs_without_delay=False and a start delay: anything else is new)
+                out.append(F("c01:budget-exceeded:simulator", f"{occ} trials occupy simulated workers with n_workers={n} "
+                             f"(start_jobs_without_delay={t['header']['swd']}, delay_start={d_start})", {"call": i}))
+            elif t["header"]["sim_callback"]:
                 out.append(F("c01:budget-exceeded:simulator-busy-list",
                              f"{occ} trials occupy simulated workers with n_workers={n} (start_jobs_without_delay={t['header']['swd']}): "
                              f"SimulatorBackend.busy_trial_ids omits trials that are scheduled but whose StartEvent has not fired yet",
@@ -1555,6 +1607,16 @@ def monitor_c01(t):
             break
         if c[:2] == ["be", "fetch"] and (len(c[2]) > n or len(set(c[2])) != len(c[2])):
             out.append(F("c01:budget-exceeded", f"running set {c[2]} with n_workers={n}", {"call": i}))
+    # simulator: the end of a run which the simulator has processed during a poll is visible in that poll
+    for idx, tid, st in getattr(t["backend"], "sim_ends", []):
+        if 0 <= idx < len(t["dlg"].entries):
+            e = t["dlg"].entries[idx]
+            if e["call"][:2] == ["be", "fetch"] and isinstance(e["ans"], dict) and tid in e["call"][2]:
+                seen = dict((a_, b_) for a_, b_ in e["ans"].get("status", []))
+                if seen.get(tid) == Status.in_progress:
+                    out.append(F("c01:simulator-end-not-visible", f"the simulator processed the end ({st}) of trial {tid} during a poll which "
+                                 f"still reports the trial as in progress: the loop never learns that this run is over", {"call": idx}))
+                    break
             break
     # ids
     starts = 0
